@@ -84,8 +84,11 @@ func c16Families(tier string) []engine.Family {
 			return
 		}
 		dry := &failWriter{k: -1}
-		enc := structform.EnsureExtVisitor(c.Codec.NewEnc(dry, c.Opts))
-		if _, err := model.Drive(enc, c.Evs); err != nil {
+		if r := guard(int64(20000+400*streamSize(c.Evs)), func() error {
+			enc := structform.EnsureExtVisitor(c.Codec.NewEnc(dry, c.Opts))
+			_, err := model.Drive(enc, c.Evs)
+			return err
+		}); r.Bad() || r.Err != nil {
 			return // not encodable (other checks' business)
 		}
 		W := dry.writes
@@ -144,8 +147,8 @@ func c16Families(tier string) []engine.Family {
 		}
 		cd := c.Codec
 		dry := model.NewRecorder()
-		if err := cd.Parse(c.Doc, dry); err != nil {
-			return
+		if r := guard(int64(20000+400*len(c.Doc)), func() error { return cd.Parse(exact(c.Doc), dry) }); r.Bad() || r.Err != nil {
+			return // rejected or crashing input: other checks' business
 		}
 		E := len(dry.Evs)
 		if E == 0 {
@@ -211,8 +214,9 @@ func c16Families(tier string) []engine.Family {
 		if plain {
 			dv = model.PlainRecorder{R: dry}
 		}
-		if err := gotype.Fold(v, dv); err != nil {
-			engine.Fail("fold seed value %d: %v", vi, err)
+		if r := guard(400000, func() error { return gotype.Fold(v, dv) }); r.Bad() || r.Err != nil {
+			x.Count("fold_seed_value_rejected", 1) // C12's business
+			return
 		}
 		E := len(dry.Evs)
 		k := x.Choose(E)
